@@ -5,6 +5,7 @@ import (
 	"encoding/json"
 	"fmt"
 	"go/ast"
+	"go/format"
 	"go/parser"
 	"go/token"
 	"math/rand"
@@ -72,6 +73,7 @@ type impCfg struct {
 	Ov    map[string]string
 	Used  map[string]bool
 	Shape int // 0: one parenthesised block; 1: one declaration per import; 2: "C" in its own first block
+	Lit   int // form of the import path literals: 0 "a/x", 1 raw `a/x`, 2 interpreted with an escape "a\x2fx"
 }
 
 func (c impCfg) key() string {
@@ -79,15 +81,24 @@ func (c impCfg) key() string {
 	for _, p := range impPaths {
 		s = append(s, fmt.Sprintf("%s:%s/%s/%v", p, c.Src[p], c.Ov[p], c.Used[p]))
 	}
-	return fmt.Sprintf("shape%d ", c.Shape) + strings.Join(s, " ")
+	return fmt.Sprintf("shape%d lit%d ", c.Shape, c.Lit) + strings.Join(s, " ")
 }
 
 func (c impCfg) source() string {
+	lit := func(p string) string {
+		switch {
+		case c.Lit == 1 && p != "C":
+			return "`" + p + "`"
+		case c.Lit == 2 && strings.Contains(p, "/"):
+			return "\"" + strings.Replace(p, "/", "\\x2f", 1) + "\""
+		}
+		return strconv.Quote(p)
+	}
 	spec := func(p string) string {
 		if c.Src[p] == "" {
-			return strconv.Quote(p)
+			return lit(p)
 		}
-		return c.Src[p] + " " + strconv.Quote(p)
+		return c.Src[p] + " " + lit(p)
 	}
 	var present []string
 	for _, p := range impPaths {
@@ -227,7 +238,12 @@ func impRun(c impCfg) (*impObs, string) {
 		}
 		return true
 	})
-	obs.Kept = importRegion(src) == importRegion(out)
+	// go/printer itself rewrites raw and escaped import path literals to the plain quoted form
+	canon := src
+	if b, err := format.Source([]byte(src)); err == nil {
+		canon = string(b)
+	}
+	obs.Kept = importRegion(canon) == importRegion(out)
 	return obs, ""
 }
 
@@ -294,13 +310,19 @@ func checkC07(c *Ctx) {
 						}
 						cf.Src[p], cf.Ov[p], cf.Used[p] = s, o, u
 						add(cf)
+						if variant == 0 { // the same configuration with the other forms of path literal
+							for lit := 1; lit <= 2; lit++ {
+								cl := impCfg{Src: cf.Src, Ov: cf.Ov, Used: cf.Used, Shape: cf.Shape, Lit: lit}
+								add(cl)
+							}
+						}
 					}
 				}
 			}
 		}
 	}
 	for len(cfgs) < n {
-		cf := impCfg{Src: map[string]string{}, Ov: map[string]string{}, Used: map[string]bool{}, Shape: r.Intn(3)}
+		cf := impCfg{Src: map[string]string{}, Ov: map[string]string{}, Used: map[string]bool{}, Shape: r.Intn(3), Lit: []int{0, 0, 1, 2}[r.Intn(4)]}
 		for _, p := range impPaths {
 			if p == "C" {
 				cf.Src[p], cf.Ov[p], cf.Used[p] = []string{"absent", ""}[r.Intn(2)], "unset", false
